@@ -1240,6 +1240,21 @@ class Interp:
             if isinstance(o, Obj):
                 if attr in o.attrs:
                     return True
+                if self.faithful_registry and o.cls in self.prog.classes and isinstance(attr, str):
+                    # hasattr() is getattr() without the AttributeError: a property or __getattr__ that raises it answers False
+                    fi_ = self.prog.lookup_method(o.cls, attr)
+                    ga_ = self.prog.lookup_method(o.cls, "__getattr__")
+                    probe = fi_ if (fi_ is not None and fi_.is_property) else (ga_ if fi_ is None and self.prog.lookup_class_attr(o.cls, attr)[1] is None and ga_ is not None and ga_.qualname not in self.intrinsics else None)
+                    if probe is not None:
+                        n_ev = len(self.events)
+                        try:
+                            self.call_function(probe, [] if probe is fi_ else [attr], {}, self_obj=o)
+                            return True
+                        except PathRaises as ex_:
+                            del self.events[n_ev:]
+                            if "AttributeError" in str(ex_.exc):
+                                return False
+                            raise
                 if o.cls in self.prog.classes and (self.prog.lookup_method(o.cls, attr) or self.prog.lookup_class_attr(o.cls, attr)[1] is not None):
                     return True
                 if "declared" in o.tags or "constructing" in o.tags:
